@@ -1214,4 +1214,218 @@ theorem acceptListOk_meaning (enabled : List Enc) (vals : List Bytes)
             · simp [c1, c2, c3] at h
   · cases h
 
+/-! ## I. a tonic client against a tonic server -/
+
+theorem enabledList_pack : ∀ l ∈ allNodup, enabledList (pack l) = l := by decide
+
+theorem decodeAll_replicate_out (enc : Option Enc) (d : Bool) (m : Nat) :
+    decodeAll enc (List.replicate m (outFrame enc d)) = List.replicate m (.ok .raw) := by
+  induction m with
+  | zero => rfl
+  | succ m ih =>
+    simp only [List.replicate_succ]
+    cases enc with
+    | none => simp [decodeAll, decodeFrame, decodeFlag, outFrame] at ih ⊢; exact ih
+    | some e =>
+      cases d with
+      | true => simp [decodeAll, decodeFrame, decodeFlag, outFrame] at ih ⊢; exact ih
+      | false => simp [decodeAll, decodeFrame, decodeFlag, outFrame, decompress] at ih ⊢; exact ih
+
+theorem firstErr_replicate_ok (m : Nat) : firstErr (List.replicate m (Item.ok .raw)) = none := by
+  induction m with
+  | zero => rfl
+  | succ m ih => simpa [List.replicate_succ, firstErr] using ih
+
+theorem fromEncoding_single (s : Slots) (e : Enc) :
+    fromEncodingHeader [asStr e] s =
+      if isEnabled s e then .ok (some e) else .error ((acceptHeaderValue s).getD identityName) := by
+  cases e <;> cases h : isEnabled s _ <;>
+    simp [fromEncodingHeader, asStr, gzipName, deflateName, zstdName, identityName, h]
+
+theorem visible_accept (s : Slots) : toStrOk (acceptValueBody s ++ identityName) = true := by
+  induction s with
+  | nil => decide
+  | cons a s ih =>
+    cases a with
+    | none => simpa [acceptValueBody] using ih
+    | some e =>
+      have he : (asStr e).all Ascii.isVisible = true := by cases e <;> decide
+      have hc : Ascii.isVisible 44 = true := by decide
+      simp only [toStrOk, List.all_append] at ih ⊢
+      simp only [acceptValueBody, List.all_append, List.all_cons, List.all_nil, he, hc, Bool.and_true,
+        Bool.true_and]
+      simpa using ih
+
+theorem findSome_names (send : List Enc) (l : List Enc) :
+    (l.map asStr ++ [identityName]).findSome?
+        (fun t => (nameOf? t).filter (fun e => send.contains e)) =
+      l.find? (fun e => send.contains e) := by
+  induction l with
+  | nil =>
+    have : nameOf? identityName = none := by decide
+    simp [this, Option.filter]
+  | cons a l ih =>
+    simp only [List.map_cons, List.cons_append, List.findSome?_cons, nameOf_asStr, List.find?_cons]
+    cases h : send.contains a
+    · simp only [Option.filter, h]; exact ih
+    · simp only [Option.filter, h, if_true]
+
+/-- what a server picks from the header a tonic client writes -/
+theorem fromAccept_of_client (cacc sndS : Slots) (sSend : List Enc) (hS : Agree sndS sSend) :
+    fromAcceptEncodingHeader (acceptHeaderValue cacc).toList sndS =
+      (enabledList cacc).find? (fun e => sSend.contains e) := by
+  unfold acceptHeaderValue
+  simp only
+  split
+  · rename_i hb
+    have hb' : acceptValueBody cacc = [] := by simpa using hb
+    have := (acceptValueBody_nil cacc).mp hb'
+    simp [this, fromAcceptEncodingHeader]
+  · simp only [Option.toList]
+    rw [fromAccept_spec sndS sSend hS _ [] (visible_accept cacc)]
+    unfold firstMutual
+    rw [acceptValue_tokens, findSome_names]
+
+theorem prepareRequest_eq (ccfg : CliCfg) (n : Nat) :
+    prepareRequest ccfg [] [] n =
+      ((ccfg.send.map asStr).toList, (acceptHeaderValue ccfg.accept).toList,
+        List.replicate n (outFrame ccfg.send false)) := by
+  unfold prepareRequest
+  cases ccfg.send <;> cases acceptHeaderValue ccfg.accept <;> rfl
+
+theorem unaryRead_one : unaryRead [Item.ok .raw] = .ok .raw := rfl
+
+/-- the server side of a pair call that is not refused -/
+theorem serve_prepared (accS sndS : Slots) (shape : Shape) (send : Option Enc) (accVals : List Bytes)
+    (n : Nat) (h : Handler) (hn : shape.singleRequest = true → n = 1)
+    (hE : fromEncodingHeader (send.map asStr).toList accS = .ok send) :
+    serve accS sndS ⟨shape, (send.map asStr).toList, accVals, List.replicate n (outFrame send false)⟩ h =
+      respond shape (fromAcceptEncodingHeader accVals sndS) h (List.replicate n (.ok .raw)) := by
+  unfold serve
+  simp only [hE, decodeAll_replicate_out]
+  cases hs : shape.singleRequest with
+  | true => simp [hn hs, unaryRead_one]
+  | false => simp [firstErr_replicate_ok]
+
+/-- the client side of a pair call whose response the server built with `respond … (reply …)` -/
+theorem call_of_reply (ccfg : CliCfg) (cAccept : List Enc) (hC : Agree ccfg.accept cAccept)
+    (shape : Shape) (k n : Nat) (dis : Bool) (chosen : Option Enc) (saw : List Item)
+    (hch : ∀ e, chosen = some e → e ∈ cAccept) :
+    (call ccfg shape [] [] k (respOf (respond shape chosen (.reply n dis []) saw))).result =
+      List.replicate (if shape.singleResponse then 1 else n) (.ok .raw) := by
+  rw [call_eq]
+  simp only
+  have hE : fromEncodingHeader (respOf (respond shape chosen (.reply n dis []) saw)).encVals ccfg.accept
+      = .ok chosen := by
+    cases chosen with
+    | none => simp [respOf, respond, fromEncodingHeader]
+    | some e =>
+      have hen : isEnabled ccfg.accept e = true := by rw [hC e]; simpa using hch e rfl
+      simp [respOf, respond, fromEncoding_single, hen]
+  have hh : (respOf (respond shape chosen (.reply n dis []) saw)).hdrStatus = none := by
+    simp [respOf, respond]
+  rw [callResult_plain ccfg shape _ chosen hE hh]
+  have hitems : clientItems chosen false (respOf (respond shape chosen (.reply n dis []) saw)) =
+      List.replicate (if shape.singleResponse then 1 else n) (.ok .raw) := by
+    unfold clientItems
+    simp [respOf, respond, decodeAll_replicate_out, firstErr_replicate_ok]
+  rw [hitems]
+  cases hr : shape.singleResponse with
+  | true => simp [unaryRead_one]
+  | false => simp
+
+theorem pair_ok (ccfg : CliCfg) (cAccept : List Enc) (hC : Agree ccfg.accept cAccept)
+    (hCl : enabledList ccfg.accept = cAccept)
+    (accS sndS : Slots) (sAccept sSend : List Enc) (hA : Agree accS sAccept) (hS : Agree sndS sSend)
+    (shape : Shape) (k : Nat) (h : Handler) (hmd : h.forges = false) :
+    pairOk ccfg.send cAccept sAccept sSend shape k h
+      (pair ccfg accS sndS shape k h).1 (pair ccfg accS sndS shape k h).2 = true := by
+  unfold pairOk
+  have h2 : (pair ccfg accS sndS shape k h).2 =
+      call ccfg shape [] [] k (respOf (pair ccfg accS sndS shape k h).1) := rfl
+  have hsend := call_send ccfg shape [] k (respOf (pair ccfg accS sndS shape k h).1)
+  have hadv := call_advertise ccfg cAccept hC shape [] k (respOf (pair ccfg accS sndS shape k h).1)
+  rw [h2, hsend, hadv]
+  simp only [Bool.true_and]
+  have h1 : (pair ccfg accS sndS shape k h).1 =
+      serve accS sndS ⟨shape, (ccfg.send.map asStr).toList, (acceptHeaderValue ccfg.accept).toList,
+        List.replicate (if shape.singleRequest then 1 else k) (outFrame ccfg.send false)⟩ h := by
+    unfold pair
+    simp only [prepareRequest_eq]
+  have hchosen := fromAccept_of_client ccfg.accept sndS sSend hS
+  rw [hCl] at hchosen
+  -- is the request refused?
+  by_cases href : pairRefused ccfg.send sAccept = true
+  · -- refused: the client sends `e`, the server does not accept it
+    simp only [href, if_true]
+    cases hs : ccfg.send with
+    | none => simp [pairRefused, hs] at href
+    | some e =>
+      have hne : isEnabled accS e = false := by
+        rw [hA e]; simpa [pairRefused, hs] using href
+      have hE : fromEncodingHeader [asStr e] accS = .error ((acceptHeaderValue accS).getD identityName) := by
+        rw [fromEncoding_single, hne]; rfl
+      have hso : (pair ccfg accS sndS shape k h).1 =
+          errorResponse false [] 12 .unsupported [(acceptHeaderValue accS).getD identityName] := by
+        rw [h1, hs]
+        unfold serve
+        simp [hE]
+      rw [hso, call_eq]
+      have hcr : callResult ccfg shape (respOf (errorResponse false [] 12 .unsupported
+          [(acceptHeaderValue accS).getD identityName])) =
+          ([.err 12 .unsupported], [(acceptHeaderValue accS).getD identityName]) := by
+        simp [callResult, respOf, errorResponse, fromEncodingHeader]
+      simp only [hcr]
+      simp [errorResponse, acceptListOk_model accS sAccept hA]
+  · -- accepted
+    simp only [href, Bool.false_eq_true, if_false]
+    have hE : fromEncodingHeader (ccfg.send.map asStr).toList accS = .ok ccfg.send := by
+      cases hs : ccfg.send with
+      | none => simp [fromEncodingHeader]
+      | some e =>
+        have hen : isEnabled accS e = true := by
+          rw [hA e]
+          have : pairRefused (some e) sAccept = false := by rw [← hs]; simpa using href
+          simpa [pairRefused] using this
+        simp [fromEncoding_single, hen]
+    have hso := serve_prepared accS sndS shape ccfg.send (acceptHeaderValue ccfg.accept).toList
+      (if shape.singleRequest then 1 else k) h (by intro hs; simp [hs]) hE
+    rw [← h1, hchosen] at hso
+    have hcs := respond_called shape (pairResponseEnc cAccept sSend) h
+      (List.replicate (if shape.singleRequest then 1 else k) (.ok .raw))
+    unfold pairResponseEnc at hcs
+    rw [hso]
+    cases h with
+    | fail c =>
+      simp only [hcs.1, hcs.2, beq_self_eq_true, Bool.true_and]
+      cases c with
+      | zero => simp
+      | succ c' =>
+        rw [call_eq]
+        simp [callResult, respOf, respond, errorResponse, fromEncodingHeader]
+    | reply n dis md =>
+      have : md = [] := by simpa [Handler.forges] using hmd
+      subst this
+      have hch : ∀ e, List.find? (fun e => sSend.contains e) cAccept = some e → e ∈ cAccept :=
+        fun e he => List.mem_of_find?_eq_some he
+      rw [call_of_reply ccfg cAccept hC shape k n dis _ _ hch]
+      simp only [hcs.1, hcs.2, beq_self_eq_true, Bool.true_and, Bool.and_true]
+      have hann : ∀ chosen : Option Enc, ∀ saw, ((respond shape chosen (.reply n dis []) saw).frames.all
+          (frameOk (respond shape chosen (.reply n dis []) saw).enc)) = true := by
+        intro chosen saw
+        simp only [respond, List.all_eq_true]
+        intro f hf
+        rw [List.eq_of_mem_replicate hf]
+        exact frameOk_outFrame chosen [] _
+      rw [hann]
+      unfold pairResponseEnc
+      cases List.find? (fun e => sSend.contains e) cAccept <;> simp [respond, asStr_eq_name]
+
+
+theorem enabledList_configure (cs : List Call) :
+    enabledList (configure true cs) = Spec.Compression.enabledAfter cs := by
+  have h := runCalls_pack cs
+  simp only [configure, if_true, h.1]
+  exact enabledList_pack _ h.2
+
 end Compression
